@@ -466,8 +466,23 @@ func runC30(c *Ctx) []Obligation {
 			Barrier: []string{`^` + kK + `DeleteClaim\(k, ctx, ` + kK + `ValidateProof\(k, ctx, proof\)#0, `},
 			Target:  TargetAnyReturn(), Why: "and deletes the claim"},
 	}
+	// "reported as a replay": a bad sibling range has to reach MerkleProof.Validate, whose verdict the handler
+	// turns into the replay burn; the stateless message checks look at the message's own root / target only
+	rows = append(rows,
+		Row{Prop: P, ID: "proofmsg.basic-check-judges-target-only", Fn: "(x/pocketcore/types.MsgProof).ValidateBasic",
+			Target: CallTo(`isValidRange\(`).Except(`^\(x/pocketcore/types\.HashRange\)\.isValidRange\(msg\.MerkleProof\.Target\)$`),
+			Why:    "the stateless proof-message check tests the range of the target only: a sibling with a zero-width range is not dropped there (it would vanish without being reported as a replay)"},
+		Row{Prop: P, ID: "claimmsg.basic-check-judges-root-only", Fn: "(x/pocketcore/types.MsgClaim).ValidateBasic",
+			Target: CallTo(`isValidRange\(`).Except(`^\(x/pocketcore/types\.HashRange\)\.isValidRange\(msg\.MerkleRoot\)$`),
+			Why:    "the stateless claim check tests the claimed root's range only"},
+	)
 	out := c.Rows(rows)
 	out = append(out, c.parentHashBinds(P))
+	out = append(out, c.noElementAccess(P, "proofmsg.basic-check-reads-no-sibling", "(x/pocketcore/types.MsgProof).ValidateBasic", `^msg\.MerkleProof\.HashRanges$`,
+		"the stateless proof-message check only counts the siblings; it never looks inside one (whatever is wrong with a sibling is for the verifier to find and report)"))
+	out = append(out, c.whoMayCall(P, "range-validity.judges", "(x/pocketcore/types.HashRange).isValidRange",
+		[]string{`\(x/pocketcore/types\.MerkleProof\)\.Validate`, `\(x/pocketcore/types\.Msg(Claim|Proof)\)\.ValidateBasic`},
+		"range validity is judged by the verifier (where an invalid sibling means replay) and by the two stateless message checks (root / target only)"))
 	return out
 }
 
@@ -489,6 +504,58 @@ func (c *Ctx) parentHashBinds(P string) Obligation {
 		o.fail(c.A.Pos(r.hit.Pos()), "post-upgrade parent hash is %s", r.hitDesc)
 	} else if r.matched[0] == 0 {
 		o.fail(c.A.FnPos(fn), "no codec-upgrade branch found in parentHash")
+	}
+	return *o
+}
+
+// noElementAccess: in fn, the slice rendering as sliceRe is never indexed, ranged over or re-sliced
+// (taking its length is allowed).
+func (c *Ctx) noElementAccess(P, rule, fnName, sliceRe, why string) Obligation {
+	o := c.obl(P, rule, fnName, "in "+fnName+" no element of "+sliceRe+" is read — "+why)
+	fn := c.A.Fn(fnName)
+	if fn == nil {
+		o.unresolved("not found")
+		return *o
+	}
+	o.Pos = c.A.FnPos(fn)
+	re := c.E1.re(sliceRe)
+	uses := 0
+	for _, b := range fn.Blocks {
+		for _, ins := range b.Instrs {
+			var base ssa.Value
+			switch x := ins.(type) {
+			case *ssa.IndexAddr:
+				base = x.X
+			case *ssa.Index:
+				base = x.X
+			case *ssa.Slice:
+				base = x.X
+			case *ssa.Range:
+				base = x.X
+			case *ssa.Call:
+				if bi, ok := x.Call.Value.(*ssa.Builtin); ok && bi.Name() == "len" && len(x.Call.Args) == 1 && re.MatchString(desc(x.Call.Args[0], maxDepth)) {
+					uses++
+				}
+				// handing the whole slice to another function is reading its elements elsewhere
+				if _, isB := x.Call.Value.(*ssa.Builtin); !isB {
+					for _, a := range x.Call.Args {
+						if re.MatchString(desc(a, maxDepth)) {
+							o.fail(c.A.Pos(x.Pos()), "%s is handed to %s", desc(a, 4), calleeName(&x.Call))
+						}
+					}
+				}
+				continue
+			default:
+				continue
+			}
+			o.Facts++
+			if re.MatchString(desc(base, maxDepth)) {
+				o.fail(c.A.Pos(ins.Pos()), "an element of %s is read (%T)", desc(base, 4), ins)
+			}
+		}
+	}
+	if uses == 0 {
+		o.unresolved("%s does not mention a slice rendering as %s any more", fnName, sliceRe)
 	}
 	return *o
 }
